@@ -71,6 +71,15 @@ func (n *n3Node) live() liveCtx {
 			}
 		}
 	}
+	if rs.ProposalBlockParts != nil {
+		h := rs.ProposalBlockParts.Header()
+		lc.HasParts, lc.PartsTotal, lc.PartsHash = true, h.Total, h.Hash
+	}
+	if rs.Proposal == nil && rs.Validators != nil && rs.Step <= cstypes.RoundStepPropose {
+		if pr := rs.Validators.GetProposer(); pr != nil && bytes.Equal(pr.Address, n.hostAddr) {
+			lc.HarnessProposes = true
+		}
+	}
 	if rs.Height > 1 {
 		if meta := n.store.LoadBlockMeta(rs.Height - 1); meta != nil {
 			lc.PrevBID = meta.BlockID.ToProto()
